@@ -116,14 +116,22 @@ theorem sqlCore_scored {sc : Nat} {sks : List (Nat × MH)} (hn : (sks.map Prod.f
     unfold sqlScore at hne
     exact scoreFn_n_pos hne
 
-/-- `SqliteIndex.find` on a database of flat scaled-`Sd` sketches, for any search object: the scan
-over exactly the stored sketches sharing a hash with the prepared query, each once, scored with the
-specification score -/
-theorem findSqlite_scored (js : JS) (sks : List (Nat × MH)) (Sd Sq : Nat) (q : MH)
+theorem specScore_n_zero_of_empty (m : Mode) (Sq Sd : Nat) (Q D : List Nat)
+    (h : Q.filter (fun x => decide (x ≤ mhR (max Sq Sd))) = []) : (specScore m Sq Sd Q D).n = 0 := by
+  unfold specScore specSizes
+  simp only []
+  rw [h]
+  exact scoreFn_n_zero _ _ _ _
+
+/-- `SqliteIndex.find` (either variant of the source) on a database of flat scaled-`Sd` sketches, for
+any search object: the scan over exactly the stored sketches sharing a hash with the prepared query,
+each once, scored with the specification score.  Without the early return (`early = false`) this
+needs a query that is not empty after downsampling. -/
+theorem findSqliteV_scored (early : Bool) (js : JS) (sks : List (Nat × MH)) (Sd Sq : Nat) (q : MH)
     (hq : Flat q Sq) (hn : (sks.map Prod.fst).Nodup) (hSd : Sd ≤ 2 ^ 31)
     (hsks : ∀ p ∈ sks, Flat p.2 Sd)
-    (hne : q.mins.filter (fun x => decide (x ≤ mhR (max Sq Sd))) ≠ []) :
-    ∃ ov H, findSqlite (sqlOf Sd sks) js q = .ok (scan js H) ∧
+    (hne : early = false → q.mins.filter (fun x => decide (x ≤ mhR (max Sq Sd))) ≠ []) :
+    ∃ ov H, findSqliteV early (sqlOf Sd sks) js q = .ok (scan js H) ∧
       Scored sks (fun s => specScore js.mode Sq Sd q.mins s.mins) ov H := by
   have hprep : ∃ q', (if Sd > Py.scaledProp q then liftE (Py.downsample q none (some Sd)) else .ok q) = .ok q' ∧
       Flat q' (max Sq Sd) ∧ q'.mins = q.mins.filter (fun x => decide (x ≤ mhR (max Sq Sd))) := by
@@ -144,14 +152,50 @@ theorem findSqlite_scored (js : JS) (sks : List (Nat × MH)) (Sd Sq : Nat) (q : 
     rw [hq.scaledProp, hq.track]
     have := hq.lo
     rw [if_neg (by omega), if_neg (by simp)]
-  have hU : ∀ p ∈ sks, ∀ h ∈ p.2.mins, h < 2 ^ 64 := fun p hp => (hsks p hp).u64
-  have hQb : ∀ h ∈ q'.mins, h ≤ q'.maxHash := fun h hh => hq2.inv.bounded hq2.mh_ne h hh
-  obtain ⟨H, e, hS⟩ := sqlCore_scored (sc := Sd) hn hU (q' := q') (by rw [hq3]; exact hne) hQb hq2.u64 js
-  refine ⟨_, H, ?_, hS.congr (fun p hp => sqlScore_eq_spec js.mode hq2 hq3 (hsks p hp))⟩
-  unfold findSqlite
-  rw [hcompat]
-  simp only [sqlOf]
-  rw [hq1]
-  exact e
+  by_cases hempty : q.mins.filter (fun x => decide (x ≤ mhR (max Sq Sd))) = []
+  · -- the early return
+    have he : early = true := by
+      cases early with
+      | true => rfl
+      | false => exact absurd hempty (hne rfl)
+    subst he
+    refine ⟨fun _ => 0, [], ?_, ⟨by simp, ?_, ?_⟩⟩
+    · unfold findSqliteV
+      rw [hcompat]
+      simp only [sqlOf]
+      rw [hq1]
+      simp only []
+      rw [hq3, hempty]
+      rfl
+    · intro x
+      simp
+    · intro p _ hnz
+      exact absurd (specScore_n_zero_of_empty js.mode Sq Sd q.mins p.2.mins hempty) hnz
+  · have hU : ∀ p ∈ sks, ∀ h ∈ p.2.mins, h < 2 ^ 64 := fun p hp => (hsks p hp).u64
+    have hQb : ∀ h ∈ q'.mins, h ≤ q'.maxHash := fun h hh => hq2.inv.bounded hq2.mh_ne h hh
+    obtain ⟨H, e, hS⟩ := sqlCore_scored (sc := Sd) hn hU (q' := q') (by rw [hq3]; exact hempty) hQb hq2.u64 js
+    refine ⟨_, H, ?_, hS.congr (fun p hp => sqlScore_eq_spec js.mode hq2 hq3 (hsks p hp))⟩
+    unfold findSqliteV
+    rw [hcompat]
+    simp only [sqlOf]
+    rw [hq1]
+    simp only []
+    have hnotempty : q'.mins.isEmpty = false := by
+      rw [hq3]
+      cases hl : q.mins.filter (fun x => decide (x ≤ mhR (max Sq Sd))) with
+      | nil => exact absurd hl hempty
+      | cons _ _ => rfl
+    rw [hnotempty, Bool.and_false]
+    exact e
+
+/-- the same for the variant the current source has: the non-empty-query hypothesis is needed only if
+the source lacks the early return -/
+theorem findSqlite_scored (js : JS) (sks : List (Nat × MH)) (Sd Sq : Nat) (q : MH)
+    (hq : Flat q Sq) (hn : (sks.map Prod.fst).Nodup) (hSd : Sd ≤ 2 ^ 31)
+    (hsks : ∀ p ∈ sks, Flat p.2 Sd)
+    (hne : Gen.sqlEmptyQueryReturnsNothing = false → q.mins.filter (fun x => decide (x ≤ mhR (max Sq Sd))) ≠ []) :
+    ∃ ov H, findSqlite (sqlOf Sd sks) js q = .ok (scan js H) ∧
+      Scored sks (fun s => specScore js.mode Sq Sd q.mins s.mins) ov H :=
+  findSqliteV_scored _ js sks Sd Sq q hq hn hSd hsks hne
 
 end Sm.Search
